@@ -195,6 +195,13 @@ impl SuperVersions {
     }
 }
 
+#[cfg(feature = "verif")]
+impl SuperVersions {
+    pub(crate) fn verif_iter(&self) -> impl Iterator<Item = &SuperVersion> {
+        self.0.iter()
+    }
+}
+
 #[cfg(test)]
 mod tests {
     use super::*;
